@@ -1,16 +1,7 @@
 import GlmVerif.Sem.Family
 import GlmVerif.Spec.C10
 import GlmVerif.Gen.C10
-import GlmVerif.Props.C10.T_det
-import GlmVerif.Props.C10.T_inv_left
-import GlmVerif.Props.C10.T_inv_right
-import GlmVerif.Props.C10.T_invtr
-import GlmVerif.Props.C10.T_divmm
-import GlmVerif.Props.C10.T_asgdiv_m
-import GlmVerif.Props.C10.T_divmv
-import GlmVerif.Props.C10.T_divvm
-import GlmVerif.Props.C10.T_adjugate
-import GlmVerif.Props.C10.T_affinv
+import GlmVerif.Props.C10.All
 /-!
 # C10 — inverse, determinant and their gtc variants satisfy the defining identities
 
@@ -24,10 +15,6 @@ checked) is non-zero; `adjugate(M)*M = det(M) I`.  Sizes 2, 3, 4.
 namespace Glm.Props.C10
 open Glm Glm.Spec.C10 Glm.Gen.C10
 
-
-theorem all_ok : ∀ f ∈ families, f.ok lookup = true := by
-  simp only [families, List.mem_cons, List.not_mem_nil, or_false, forall_eq_or_imp, forall_eq]
-  exact ⟨det_ok, inv_left_ok, inv_right_ok, invtr_ok, divmm_ok, asgdiv_m_ok, divmv_ok, divvm_ok, adjugate_ok, affinv_ok⟩
 
 variable {K : Type} [Field K] [CharZero K]
 
@@ -46,7 +33,7 @@ theorem inverse_mul_self (N : Nat) (hN : [N] ∈ squares) (j : Nat) (hj : j < N 
       simp only [squares, List.mem_cons, List.cons.injEq, and_true, List.not_mem_nil, or_false] at hN
       rcases hN with rfl | rfl | rfl <;> decide +kernel
     intro d hd; rw [this] at hd; simp at hd
-  have := (Family.frac_sound fieldOps_fieldLike inv_left_ok rfl rfl (ks := [N]) hN (j := j) hj env hall).2
+  have := (Family.frac_sound fieldOps_fieldLike (all_ok f_inv_left (by simp [families])) rfl rfl (ks := [N]) hN (j := j) hj env hall).2
   refine this.trans ?_
   show (delta (j / N) (j % N)).eval (fieldOps K) env = _
   unfold delta; split <;> simp [one, zero, E.eval]
@@ -54,7 +41,7 @@ theorem inverse_mul_self (N : Nat) (hN : [N] ∈ squares) (j : Nat) (hj : j < N 
 /-- the determinant the code divides by is the Leibniz/Laplace determinant (every commutative ring) -/
 theorem determinant_correct {R : Type} [CommRing R] (N : Nat) (hN : [N] ∈ squares) (env : Nat → R) :
     ((lookup "det" [N]).outE 0).eval (ringOps R) env = (detE N (M N 0)).eval (ringOps R) env :=
-  Family.poly_sound ringOps_ringLike det_ok rfl rfl (ks := [N]) hN (j := 0) Nat.zero_lt_one env
+  Family.poly_sound ringOps_ringLike (all_ok f_det (by simp [families])) rfl rfl (ks := [N]) hN (j := 0) Nat.zero_lt_one env
 
 /-- all `frac` families of C10, generic statement -/
 theorem frac_families_correct (f : Family) (hf : f ∈ families) (htm : f.treeMode = false) (hk : f.kind = .frac)
